@@ -58,6 +58,11 @@ LeafFamily ==
   \cup {Leaf(key, "matches", ReV(a, s)) : key \in {KXY, KE}, a \in 0..3, s \in ReLits}
   \cup {Leaf(key, "is", BoolV(b)) : key \in {KYX, KX, KM}, b \in BOOLEAN}
   \cup {Leaf(key, "exists", NoV) : key \in {QKeys[k] : k \in 1..Len(QKeys)}}
+  \* operands that do not fit their operator (a word where a number or a truth value belongs): Check / ParseQuery must
+  \* refuse the query wherever such a leaf stands in the tree
+  \cup {Leaf(key, op, StrV(<<1>>)) : key \in {KX}, op \in {"eq", "gt", "le"}}
+  \cup {Leaf(KY, op, StrV(<<10>>)) : op \in {"feq", "flt"}}
+  \cup {Leaf(KYX, "is", StrV(<<1, 10>>))}
   \* keys that read like a token of the grammar: "(" and ")"  (and, or, not cannot be spelled in the alphabet)
   \cup {Leaf(key, op, IF op = "eq" THEN IntV(4) ELSE NoV) : key \in {<<PO>>, <<PC>>}, op \in {"exists", "eq"}}
 
@@ -103,7 +108,7 @@ LeafLaws(c, r) ==
 Balanced(lex) == LET RECURSIVE cnt(_, _) cnt(i, w) == IF i > Len(lex) THEN 0 ELSE (IF lex[i].k = "kw" /\ lex[i].w = w THEN 1 ELSE 0) + cnt(i + 1, w)
                  IN cnt(1, "(") = cnt(1, ")")
 
-SemLaws ==
+SemLaws == WellFormed(ast) =>
     /\ WellFormed(ast)
     /\ Balanced(QueryLex(ast, <<10, 13>>, <<>>, 0, 0, ZeroRV, 0))
     /\ LET jw == JW IN \A i \in 1..Len(jw) :
